@@ -73,7 +73,7 @@ func TestC05(t *testing.T) {
 					SamePkg:       rapid.IntRange(0, 2).Draw(rt, "samepkg") == 0,
 					FieldSettings: true,
 					Defects:       rapid.IntRange(0, 1).Draw(rt, "defects"),
-					DefectKinds:   []string{"missing", "unexported", "ambiguous-case", "unknown-field", "ambiguous-automap", "ambiguous-method"},
+					DefectKinds:   []string{"missing", "unexported", "ambiguous-case", "unknown-field", "ambiguous-automap", "ambiguous-method", "overlap"},
 					Unexported:    true,
 					Methods:       true,
 					MaxFields:     5,
